@@ -64,7 +64,7 @@ SEEDS_THOROUGH = SEEDS_QUICK + ['C1CC1C', 'C1CCC1']
 # medium seeds (5-10 atoms, Kekule forms only: hydrogens of aromatic atoms are not derivable from atoms and bonds): rings with ambiguous bases, stereo of every kind, zwitterion, metal
 SEEDS_MEDIUM = ['smi:C1=CC=CC=C1', 'smi:C[C@H](N)C(=O)O', 'smi:C/C=C/C=C\\C', 'smi:C1CC2CCC1C2', 'smi:C[N+](C)(C)CC([O-])=O', 'smi:C1CCC2(CC1)OCCO2', 'smi:O=C1C=CC(=O)C=C1',
                 'smi:C[C@H]1CC[C@@H](O)CC1', 'smi:CC=[C@]=CC', 'smi:C#CC[N+]#[C-]', 'smi:C[Mg]Br', 'smi:C1CC1C1CC1', 'smi:N1C=CC=C1', 'smi:C[C@@]12CCC[C@H]1C2', 'smi:OO.[Na+].[Cl-]']
-SEEDS_MEDIUM_QUICK = SEEDS_MEDIUM[:8]
+SEEDS_MEDIUM_QUICK = SEEDS_MEDIUM[:5]
 
 
 # ----------------------------------------------------------------------------- raw snapshot, rebuild, readers
@@ -694,7 +694,7 @@ def stage_dev2(pmap, tier, seed):
 
 def stage_medium1(pmap, tier, seed):
     I4DEPTH[0] = 0
-    return bfs(pmap, SEEDS_MEDIUM if tier == 'thorough' else SEEDS_MEDIUM_QUICK, 1, 1, 99, 3, 'medium dev1', patterns=PATTERNS if tier == 'thorough' else PATTERNS_QUICK)
+    return bfs(pmap, SEEDS_MEDIUM if tier == 'thorough' else SEEDS_MEDIUM_QUICK, 1, 1, 99, 3, 'medium dev1', patterns=PATTERNS if tier == 'thorough' else ['ALL', 'NONE', 'ONE:str'])
 
 
 def stage_medium2(pmap, tier, seed):
@@ -711,7 +711,7 @@ def plan(tier, seed):
                 Stage('medium seeds: every pair of events', stage_medium2, None, 'all histories of 2 events on the 15 medium seeds, all caches read after every event')]
     return [Stage('BFS default reads depth 3', stage_default, None, 'all histories <=3 events, <=4 atoms, <=1 decorated atom, all caches read after every event'),
             Stage('BFS <=1 read deviation depth 2', stage_dev1, None, 'all histories <=2 events, <=4 atoms, with <=1 non-default read pattern (none/exactly-one-of-9)'),
-            Stage('medium seeds: every event, <=1 read deviation', stage_medium1, None, 'every enabled event at every position of 8 molecules of 6-10 atoms (rings, stereo, zwitterion) x read patterns all / none / exactly one of 9')]
+            Stage('medium seeds: every event, <=1 read deviation', stage_medium1, None, 'every enabled event at every position of 5 molecules of 6-8 atoms (Kekule ring, stereocentre, diene, bicycle, zwitterion) x read patterns all / none / str only')]
 
 
 def replay(rec):
